@@ -289,7 +289,7 @@ fn c19_families(report: &Report) {
         guard += 1;
         if guard > 40 { report.cap_hit("Python model families: more than 40 restarts after hanging cases; the rest is not covered"); break; }
         let to = total.unwrap_or(u64::MAX / 2);
-        match run_py_families(from, to, 12) {
+        match run_py_families(from, to, 40) {
             Ok(None) => return not_covered(report, "bindings not built or python3-vt missing"),
             Err(e) => { eprintln!("MACHINERY: {e}"); std::process::exit(2); }
             Ok(Some((Some(v), _))) => {
@@ -301,7 +301,7 @@ fn c19_families(report: &Report) {
             Ok(Some((None, Some(i)))) => {
                 // confirm the hang of case i on its own, then go on behind it
                 hangs += 1;
-                let confirmed = matches!(run_py_families(i, i + 1, 6), Ok(Some((None, _))));
+                let confirmed = matches!(run_py_families(i, i + 1, 20), Ok(Some((None, _))));
                 // the cases before i were fine or are re-run below; re-run [from, i) to collect their findings
                 if i > from {
                     if let Ok(Some((Some(v), _))) = run_py_families(from, i, 30) { n += v["checked"].as_u64().unwrap_or(0); fails += report_failures(report, &v, ""); if total.is_none() { total = v["counters"]["family_total"].as_u64(); } }
